@@ -1611,7 +1611,8 @@ func (mgr *Manager) convertStreamJob(allConverters []*converters.CachedConverter
 				if tag.features.MainFeatures&query.FeatureFilterData == 0 && tag.features.SubQueryFeatures&query.FeatureFilterData == 0 {
 					continue
 				}
-				tag.Uncertain.Or(*allStreamIDs[i])
+				// don't modify the bitmask in place, it is shared with views and running jobs
+				tag.Uncertain = tag.Uncertain.OrCopy(*allStreamIDs[i])
 			}
 			mgr.updatedStreamsDuringTaggingJob.Or(*allStreamIDs[i])
 			mgr.event(Event{
